@@ -141,6 +141,8 @@ def jobs(tier, seed):
         out.append({'name': 'statement pairs %d..%d' % (i, min(i + CH, len(pairs)) - 1), 'kind': 'pairs', 'pairs': pairs[i:i + CH], 'N': 2,
                     'cost': 20})
     out.append({'name': 'spatial filter', 'kind': 'spatial', 'N': N, 'cost': 5})
+    for op in OPS:
+        out.append({'name': 'datetime %s statement, float steps modelled' % op, 'kind': 'dtfp', 'op': op, 'N': 1, 'cost': 30})
     for j in out:
         j['tier'] = tier
         j['wall'] = 800 if tier == 'quick' else 3400
@@ -366,3 +368,55 @@ def _job_spatial(job):
         from .C16 import _aggregate
         obs += _aggregate(o, paths, trunc)
     return {'obligations': [o.as_dict() for o in obs], 'samples': [{'events': N, 'region': 'abstract (C01 contract)', 'paths': npaths}]}
+
+
+def _job_dtfp(job):
+    """datetime statements with the float steps of the code modelled: first under the sound rounding envelope (integers +
+    reals with per-operation half-ulp error bounds: unsat there is a proof for IEEE doubles); if that only yields candidates
+    which do not replay, the bit-exact FP64 encoding is asked for a real witness"""
+    r = _dtfp_mode(job, 'env')
+    if any(o['status'] == 'sat' and not o.get('reproduced') for o in r['obligations']):
+        r2 = _dtfp_mode(job, 'fp')
+        for o in r2['obligations']:
+            o['name'] = 'FP64 exact: ' + o['name']
+        r['obligations'] = [o for o in r['obligations'] if not (o['status'] == 'sat' and not o.get('reproduced'))] + r2['obligations']
+    return r
+
+
+def _dtfp_mode(job, mode):
+    from symx.core import SBV
+    core.MODE['float'] = mode
+    L, cats = _tw()
+    if mode == 'fp':
+        t0, T = z3.BitVec('t0', 64), z3.BitVec('T', 64)
+        wrap = SBV
+    else:
+        t0, T = z3.Int('t0'), z3.Int('T')
+        wrap = SInt
+    obs = []
+    npaths = 0
+    for op in ([job['op']] if job.get('op') else list(OPS)):
+        def run():
+            core.assume(z3.And(t0 >= M_LO, t0 <= M_HI, T >= M_LO, T <= M_HI))
+            if mode == 'fp':
+                core.assume(z3.And(t0 - T <= 1, T - t0 <= 1))       # a wrong threshold shows on an event within 1 ms of it
+            rec = symnp.rec_empty(1, cats.CSEPCatalog.dtype)
+            rec.cols['id'].a[0] = b'e0'
+            rec.cols['origin_time'] = symnp.asarray([wrap(t0)], dtype=np.int64)
+            cat = cats.CSEPCatalog(data=rec, compute_stats=False)
+            txt = 'datetime %s %s' % (op, symdt.placeholder(wrap(T) * 1000, ' ', True, False))
+            return len(cat.filter(txt).catalog)
+        paths, trunc = core.explore(run, max_paths=200)
+        npaths += len(paths)
+        holds = {'>': t0 > T, '<': t0 < T, '>=': t0 >= T, '<=': t0 <= T, '==': t0 == T}[op]
+
+        def cexf(mod, P):
+            return {'rows': [{'origin_time': core.int_from_model(mod, t0), 'latitude': 0.0, 'longitude': 0.0, 'depth': 0.0, 'magnitude': 0.0}],
+                    'stmts': [{'attr': 'datetime', 'op': op, 'us': core.int_from_model(mod, T) * 1000}]}
+        o = C.path_obligations(paths, lambda P: z3.BoolVal(P.value == 1) != holds, cexf, replay,
+                               'datetime %s T keeps the event iff origin_time %s ms(T), float steps modelled' % (op, op), 150,
+                               candidate_only=(mode != 'fp'))
+        from .C16 import _aggregate
+        obs += _aggregate(o, paths, trunc)
+    return {'obligations': [o.as_dict() for o in obs],
+            'samples': [{'attribute': 'datetime', 'events': 1, 'instants': 'every integer millisecond of 1900..2200', 'mode': mode, 'paths': npaths}]}
